@@ -544,7 +544,7 @@ def mfr_case(ctx, data: bytes, origin, pairing_mode="none") -> None:
 
 async def parsing_part(ctx) -> None:
     idx = 0
-    for k in range(ctx.pick(2500, 40000)):
+    for k in range(ctx.pick(2500, 200000)):
         idx += 1
         if ctx.mine(idx):
             await txt_case(ctx, k)
@@ -561,7 +561,7 @@ async def parsing_part(ctx) -> None:
                 if ctx.mine(idx):
                     mfr_case(ctx, v[:cut], "truncate", mode)
     ctx.exhaustive_parts["every truncation of valid manufacturer data x pairing mode"] = True
-    for k in range(ctx.pick(1500, 20000)):
+    for k in range(ctx.pick(1500, 200000)):
         idx += 1
         if not ctx.mine(idx):
             continue
@@ -596,7 +596,7 @@ def run(ctx) -> None:
                     await run_schedule(ctx, kind, mode, waiters, adverts, cancel, si)
         ctx.exhaustive_parts["all 1- and 2-waiter schedules over the time grid x 4 controller kinds"] = True
         rng = ctx.grng("C19.s3")
-        for k, (waiters, adverts, cancel) in enumerate(schedules3(ctx, rng, ctx.pick(300, 6000))):
+        for k, (waiters, adverts, cancel) in enumerate(schedules3(ctx, rng, ctx.pick(300, 60000))):
             idx += 1
             if ctx.mine(idx):
                 await run_schedule(ctx, kinds[k % 4], modes[(k // 4) % 3], waiters, adverts, cancel, ("s3", k))
